@@ -371,7 +371,8 @@ class _CenterManifoldMapDynamicsService(_MapDynamicsServiceBase):
         if options is None:
             options = self.map_options
         
-        cache_key = self.make_key("generate", section_coord, tuple(sorted(options.to_dict().items())))
+        # The map is computed with the Hamiltonian of the shared centre manifold at its current degree
+        cache_key = self.make_key("generate", section_coord, self.center_manifold.degree, tuple(sorted(options.to_dict().items())))
 
         def _factory() -> CenterManifoldDomainPayload:
             self.generator.update_config(section_coord=section_coord)
